@@ -5711,6 +5711,10 @@ class WBEMConnection:  # pylint: disable=too-many-instance-attributes
         _validate_OperationTimeout(OperationTimeout)
         _validate_MaxObjectCount_Iter(MaxObjectCount)
 
+        # The traditional operation used as a fallback would perform a class
+        # level operation if a class name or class path were specified.
+        self._iparam_instancename(InstanceName, 'InstanceName', required=True)
+
         # Common variable for pull result tuple used by pulls and finally:
         pull_result = None
         if (self._use_assoc_inst_pull_operations is None or
@@ -5998,6 +6002,10 @@ class WBEMConnection:  # pylint: disable=too-many-instance-attributes
         # The other parameters are validated in the operations called
         _validate_OperationTimeout(OperationTimeout)
         _validate_MaxObjectCount_Iter(MaxObjectCount)
+
+        # The traditional operation used as a fallback would perform a class
+        # level operation if a class name or class path were specified.
+        self._iparam_instancename(InstanceName, 'InstanceName', required=True)
 
         # Common variable for pull result tuple used by pulls and finally:
         pull_result = None
@@ -6307,6 +6315,10 @@ class WBEMConnection:  # pylint: disable=too-many-instance-attributes
         _validate_OperationTimeout(OperationTimeout)
         _validate_MaxObjectCount_Iter(MaxObjectCount)
 
+        # The traditional operation used as a fallback would perform a class
+        # level operation if a class name or class path were specified.
+        self._iparam_instancename(InstanceName, 'InstanceName', required=True)
+
         # Common variable for pull result tuple used by pulls and finally:
         pull_result = None
         if (self._use_ref_inst_pull_operations is None or
@@ -6571,6 +6583,10 @@ class WBEMConnection:  # pylint: disable=too-many-instance-attributes
         # The other parameters are validated in the operations called
         _validate_OperationTimeout(OperationTimeout)
         _validate_MaxObjectCount_Iter(MaxObjectCount)
+
+        # The traditional operation used as a fallback would perform a class
+        # level operation if a class name or class path were specified.
+        self._iparam_instancename(InstanceName, 'InstanceName', required=True)
 
         # Common variable for pull result tuple used by pulls and finally:
         pull_result = None
